@@ -19,11 +19,15 @@ pub(crate) fn process_email_autolinks<'a>(
     let mut i = 0;
 
     while i < len {
+        #[cfg(comrak_verif)]
+        crate::verif::step();
         let mut post_org = None;
         let mut bracket_opening = 0;
 
         // cmark-gfm ignores links inside brackets, such as `[[http://example.com]`
         while i < len {
+            #[cfg(comrak_verif)]
+            crate::verif::step();
             if !relaxed_autolinks {
                 match contents[i] {
                     b'[' => {
@@ -126,6 +130,8 @@ fn email_match<'a>(
     let mut rewind = 0;
 
     while rewind < i {
+        #[cfg(comrak_verif)]
+        crate::verif::step();
         let c = contents[i - rewind - 1];
 
         if isalnum(c) || EMAIL_OK_SET[c as usize] {
@@ -159,6 +165,8 @@ fn email_match<'a>(
     let mut np = 0;
 
     while link_end < size - i {
+        #[cfg(comrak_verif)]
+        crate::verif::step();
         let c = contents[i + link_end];
 
         if isalnum(c) {
@@ -218,6 +226,8 @@ fn validate_protocol(protocol: &str, contents: &[u8], cursor: usize) -> bool {
     let mut rewind = 0;
 
     while rewind < cursor && isalpha(contents[cursor - rewind - 1]) {
+        #[cfg(comrak_verif)]
+        crate::verif::step();
         rewind += 1;
     }
 
@@ -247,6 +257,8 @@ pub fn www_match<'a>(
     };
 
     while i + link_end < contents.len() && !isspace(contents[i + link_end]) {
+        #[cfg(comrak_verif)]
+        crate::verif::step();
         // basic test to detect whether we're in a normal markdown link - not exhaustive
         if relaxed_autolinks && contents[i + link_end - 1] == b']' && contents[i + link_end] == b'('
         {
@@ -287,6 +299,8 @@ fn check_domain(data: &[u8], allow_short: bool) -> Option<usize> {
     let mut uscore2 = 0;
 
     for (i, c) in unsafe { str::from_utf8_unchecked(data) }.char_indices() {
+        #[cfg(comrak_verif)]
+        crate::verif::step();
         if c == '\\' && i < data.len() - 1 {
             // Ignore escaped characters per https://github.com/github/cmark-gfm/pull/292.
             // Not sure I love this, but it tracks upstream ..
@@ -321,6 +335,8 @@ fn autolink_delim(data: &[u8], mut link_end: usize, relaxed_autolinks: bool) -> 
     const LINK_END_ASSORTMENT: [bool; 256] = character_set!(b"?!.,:*_~'\"");
 
     for (i, &b) in data.iter().enumerate().take(link_end) {
+        #[cfg(comrak_verif)]
+        crate::verif::step();
         if b == b'<' {
             link_end = i;
             break;
@@ -328,6 +344,8 @@ fn autolink_delim(data: &[u8], mut link_end: usize, relaxed_autolinks: bool) -> 
     }
 
     while link_end > 0 {
+        #[cfg(comrak_verif)]
+        crate::verif::step();
         let cclose = data[link_end - 1];
 
         // Allow any number of matching parentheses (as recognised in copen/cclose)
@@ -353,6 +371,8 @@ fn autolink_delim(data: &[u8], mut link_end: usize, relaxed_autolinks: bool) -> 
             let mut new_end = link_end - 2;
 
             while new_end > 0 && isalpha(data[new_end]) {
+                #[cfg(comrak_verif)]
+                crate::verif::step();
                 new_end -= 1;
             }
 
@@ -365,6 +385,8 @@ fn autolink_delim(data: &[u8], mut link_end: usize, relaxed_autolinks: bool) -> 
             let mut opening = 0;
             let mut closing = 0;
             for &b in data.iter().take(link_end) {
+                #[cfg(comrak_verif)]
+                crate::verif::step();
                 if b == copen {
                     opening += 1;
                 } else if b == cclose {
@@ -401,6 +423,8 @@ pub fn url_match<'a>(
 
     let mut rewind = 0;
     while rewind < i && isalpha(contents[i - rewind - 1]) {
+        #[cfg(comrak_verif)]
+        crate::verif::step();
         rewind += 1;
     }
 
@@ -417,6 +441,8 @@ pub fn url_match<'a>(
     };
 
     while link_end < size - i && !isspace(contents[i + link_end]) {
+        #[cfg(comrak_verif)]
+        crate::verif::step();
         // basic test to detect whether we're in a normal markdown link - not exhaustive
         if relaxed_autolinks
             && link_end > 0
